@@ -290,6 +290,24 @@ def stepLine (s : Sys) (toks : List String) : Sys × List String :=
         ({ s with ops := s.ops ++ [{ multi := multi }], opc := s.opc ++ [opc] }, ["ok"])
       else (s, ["bad-op"])
     | _, _ => (s, ["bad-op"])
+  | ["life", "cpoll", i] =>
+    -- First poll with a waker whose `clone` panics, of an operation that was never submitted and
+    -- with room in the queue: the submission is queued and the operation is running when the panic
+    -- unwinds (fix c6c693c: the status is set before the waker is cloned) — no waker is stored.
+    match parseNat i with
+    | some i =>
+      match getOp s i with
+      | none => (s, ["bad-op"])
+      | some o =>
+        if !o.futLive || !s.ringLive || !s.sqRoom then (s, ["bad-op"]) else
+        match o.status with
+        | .notStarted =>
+          let (s', lines) := s.poll i 0
+          match getOp s' i with
+          | some o' => (setOp s' i { o' with waker := none }, "panic" :: lines.drop 1)
+          | none => (s, ["bad-op"])
+        | _ => (s, ["bad-op"])
+    | none => (s, ["bad-op"])
   | ["life", "poll", i, w] =>
     match parseNat i, parseNat w with
     | some i, some w => s.poll i w
